@@ -205,7 +205,7 @@ FIXED = [
     {"mode": "name", "template": "x%Name()", "filter": "%Name() +", "mutated": "evaluation", "expect": 4},
     {"mode": "name", "template": "x%Name()", "filter": "%Name() == 'a.txt' and undefined_name", "mutated": "evaluation (fails for one file only)", "expect": 4},
     {"mode": "directory", "template": "%Name()", "sort": "%Name()", "recursive": True, "mutated": "none"},
-    {"mode": "name", "template": "%Name()", "sort": "%Name() if %Size()==1 else 5", "mutated": "mixed-type sort keys (F9)"},
+    {"mode": "name", "template": "%Name()", "sort": "%Name() if %Size()==1 else 5", "mutated": "mixed-type sort keys (F9, fixed)", "expect": 4},
     {"mode": "name", "template": "", "mutated": "empty"},
     {"mode": "name", "template": "%Name()", "filter": "", "mutated": "empty"},
 ]
